@@ -167,6 +167,18 @@ func Run(tier string, seed int64, outDir string) *common.Meta {
 	}
 	pairs := adjacentPairs(rng, files, pairCap)
 	histories = append(histories, pairs)
+	// derived context pairs (fw.writeContextPairs): the same texts in an ordinary and in an Example context, both orders
+	var ctxp []*fw.File
+	byPkgName := map[string]*fw.Pkg{}
+	for _, p := range pkgs {
+		byPkgName[p.Name] = p
+	}
+	if o, e := byPkgName["ctxord"], byPkgName["ctxex"]; o != nil && e != nil {
+		ctxp = append(ctxp, o.Files[0], e.Files[0], o.Files[0])
+		histories = append(histories, ctxp, []*fw.File{e.Files[0], o.Files[0], e.Files[0]})
+	} else {
+		meta.TieBroken = append(meta.TieBroken, "derived context-pair packages (ctxord/ctxex) are missing from the corpus")
+	}
 	meta.Distribution["adjacent_import_pairs"] = len(pairs) / 2
 
 	// fresh results for every (checker, file) that occurs: computed once, in parallel
